@@ -183,7 +183,9 @@ def main():
     det = {"sample_runs": 0, "worker_counts": [], "identical": True}
     nd = 2500 if tier == "quick" else 20000
     if prop in ("C13",):
-        nd = 600 if tier == "quick" else 5000
+        nd = 600 if tier == "quick" else 3000
+    if prop in ("C15", "C16", "C17") and tier == "thorough":
+        nd = 4000   # one-worker pass of the sample is the slow part
     first = variants[0][0]
     dumps = []
     for jobs in ((5, 16) if tier == "quick" else (1, 5, 16)):
